@@ -200,6 +200,12 @@ func run(ctx context.Context, confPathStr string, v3ConfPath string) error {
 	}
 
 	outFile := pathlib.NewPath(v3ConfPath)
+	// The v2 config is left untouched: never write the v3 config over it.
+	if inInfo, statErr := os.Stat(confPath.String()); statErr == nil {
+		if outInfo, statErr := os.Stat(outFile.String()); statErr == nil && os.SameFile(inInfo, outInfo) {
+			return fmt.Errorf("the output file %s is the v2 config file itself, refusing to overwrite it", outFile.String())
+		}
+	}
 	file, err := outFile.OpenFile(os.O_CREATE | os.O_RDWR | os.O_TRUNC)
 	if err != nil {
 		return fmt.Errorf("opening .mockery_v3.yml: %w", err)
